@@ -154,3 +154,35 @@ def ensure_all():
         if os.path.exists(os.path.join(HARNESS, so + ".c")):
             ensure_so(so)
     return True
+
+
+PYRT_SOURCES = ("py_panda.cxx", "py_support.cxx", "py_compat.cxx", "py_wrappers.cxx", "dtool_super_base.cxx")
+
+
+def ensure_pyrt(san=False):
+    """The python-native run-time support (src/interrogatedb/py_*.cxx) as one object file, built from the current tree with
+    the shim headers: what interrogate_module embeds into its output, for modules that are built without it (-do-module)."""
+    import sysconfig
+    bd = build.ensure("std")
+    out = os.path.join(bd, "verif-pyrt%s.o" % ("-asan" if san else ""))
+    srcs = [os.path.join(build.REPO, "src", "interrogatedb", s) for s in PYRT_SOURCES]
+    if _newer(out, srcs):
+        return out
+    with _lock("pyrt"):
+        if _newer(out, srcs):
+            return out
+        tu = os.path.join(bd, "verif-pyrt.cxx")
+        with open(tu, "w") as f:
+            for s in srcs:
+                f.write('#include "%s"\n' % s)
+        shims = os.path.join(build.VERIF, "shims")
+        cmd = ["g++", "-std=gnu++17", "-w", "-O0", "-g", "-fPIC", "-c", "-DHAVE_PYTHON", "-I", shims, "-I", os.path.join(shims, "sys"),
+               "-I", os.path.join(build.REPO, "src", "dtoolbase"), "-I", os.path.join(build.REPO, "src", "interrogatedb"),
+               "-I", sysconfig.get_paths()["include"], tu, "-o", out + ".tmp"]
+        if san:
+            cmd[1:1] = ["-fsanitize=address"]
+        r = subprocess.run(cmd, stdout=subprocess.PIPE, stderr=subprocess.STDOUT)
+        if r.returncode != 0:
+            raise build.BuildError("building the python run-time object failed: %s" % r.stdout.decode()[-1500:])
+        os.replace(out + ".tmp", out)
+    return out
